@@ -2,19 +2,36 @@
 import itertools
 import math
 
+from vt import coqgen as G
+from vt import nsio
+
 ID = 'C19'
 NEG = None          # -inf on the wire / in JSON
+GRID = 2 ** 34      # generator grid: 1/64 s in ticks of 2**-40 s
 
-RULE = ('integer-valued (hence float-exact) log-likelihood matrices incl. -inf with many exact ties, fed to the real '
-        '_melody_viterbi / _key_chord_viterbi and to the extracted Gallina Viterbi; paths compared for equality '
-        '(chord cases only when the optimum is unique, because the code adds the irrational constant -log 12); '
-        'writer loops driven through the real infer_* functions with the Viterbi call replaced by a chosen path; '
-        'end-to-end runs where an independent DP recomputes the optimum from the matrices the implementation built. '
-        'non-trivial = at least 2 frames and 2 states, or a writer case that writes at least one note/annotation')
-ASSUMPTIONS = ['numpy log/dot/norm that build the likelihood matrices are not modelled (captured and re-used by the oracle)',
+RULE = ('(1) integer-valued (hence float-exact) log-likelihood matrices incl. -inf with many exact ties, fed to the real '
+        '_melody_viterbi / _key_chord_viterbi and to the extracted Gallina Viterbi; paths (and melody events) compared for '
+        'equality (chord cases only when the optimum is unique, because the code adds the irrational constant -log 12); '
+        '(2) the real sequence_note_frames against its model on sequences with coinciding times, zero-length notes, notes on '
+        'the sequence end, drums and unpitched programs; (3) writer loops driven through the real infer_* functions with the '
+        'Viterbi call replaced by a chosen path (all 97 chords x 12 keys, every default meter, beat-annotated and '
+        'absolutely-quantized sequences, shuffled/duplicate/boundary beats); (4) end-to-end runs where an independent DP '
+        'recomputes the optimum from the matrices the implementation built, for varied model parameters, and the run is '
+        'repeated on the sequence transposed by k; (5) the documented rejections. non-trivial = at least 2 frames for '
+        'Viterbi / frame cases, at least one written annotation/note for writer and end-to-end cases; distinct by input')
+ASSUMPTIONS = ['numpy log/dot/norm that build the likelihood and transition matrices are not modelled (the matrices are captured '
+               'from the implementation and re-used by the oracle)',
                'IEEE addition is monotone on non-NaN values (instance of the generic theorem cited, not re-proved for floats)',
-               'chord path equality is compared only for cases whose optimum is unique (margin >= 1 in integer scores)']
-TRUSTED = ['independent dynamic program in harness/vt/props/c19.py (oracle for attained score)']
+               'chord path equality is compared only for cases whose optimum is unique (the code adds -log 12 to every initial score)',
+               'sequence times are multiples of 2**-40 s below 2**12 s, on which the float comparisons/products used are exact']
+TRUSTED = ['independent dynamic program (_float_dp / _dp_best) in harness/vt/props/c19.py (oracle for the attained score)']
+
+
+def gen_coq():
+    from note_seq import constants
+    s = G.HEADER
+    s += G.defzlist('UNPITCHED_PROGRAMS', list(constants.UNPITCHED_PROGRAMS))
+    return s
 
 
 # ------------------------------------------------------------------ helpers
@@ -74,21 +91,212 @@ def _cols(trans):
     return [[trans[i][j] for i in range(n)] for j in range(n)]
 
 
+def _tk(x):
+    """float seconds -> ticks; off-grid values become a string so that they can never compare equal to a model value."""
+    try:
+        return nsio.f2t(x)
+    except nsio.OffGrid:
+        return 'offgrid:' + float(x).hex()
+
+
+def _sec(t):
+    return nsio.t2f(t)
+
+
+# ------------------------------------------------------------------ generators (pure Python, no note_seq)
+def _gen_time(rng, lo, hi):
+    """A grid time in [lo, hi] (grid units), occasionally nudged by one tick."""
+    t = rng.randint(lo, hi) * GRID
+    if rng.random() < 0.08:
+        t += rng.choice([-1, 1])
+    return max(t, 0)
+
+
+def _gen_melody_notes(rng, n, end_note_prob=0.15):
+    """[pitch, start, end, instrument, is_drum, program] in ticks; many coinciding times."""
+    pool = rng.sample(range(30, 90), rng.randint(1, min(5, max(1, n))))
+    notes = []
+    t = 0
+    for _ in range(n):
+        t += rng.choice([0, 0, 16, 32, 64]) * GRID
+        if rng.random() < 0.05:
+            t += rng.choice([1, 2])
+        d = rng.choice([0, 16, 16, 32, 64, 128]) * GRID if rng.random() < 0.9 else rng.choice([1, GRID - 1])
+        notes.append([rng.choice(pool), t, t + d, rng.choice([0, 0, 1, 2, 8]),
+                      1 if rng.random() < 0.06 else 0, 100 if rng.random() < 0.05 else rng.choice([0, 0, 33, 95, 104])])
+    total = max(x[2] for x in notes) + rng.choice([0, 0, 32 * GRID, 1])
+    if rng.random() < end_note_prob:
+        # a (zero-length) note sitting exactly on the end of the sequence
+        notes.append([rng.choice(pool + [95]), total, total, 0, 0, 0])
+    rng.shuffle(notes)
+    return notes, total
+
+
+def _melodic(x, total=None):
+    return not x[4] and x[5] not in _UNPITCHED
+
+
+_UNPITCHED = set(range(96, 104)) | set(range(112, 128))
+
+
+def _gen_events(rng, notes, total):
+    """A melody-event path over the pitches of the sequence; mostly assert-safe, sometimes not."""
+    mel = [x for x in notes if _melodic(x)]
+    pitches = sorted(set(x[0] for x in mel)) or [60]
+    times = set([x[1] for x in mel] + [x[2] for x in mel]) - {0, total}
+    T = len(times) + 1 + rng.choice([0, 0, 0, 1])
+    evs, cur = [], None
+    for _ in range(T):
+        c = rng.random()
+        if c < 0.25:
+            evs.append([0, 0]); cur = None
+        elif c < 0.65 or cur is None:
+            if rng.random() < 0.06 and cur is None:
+                evs.append([2, rng.choice(pitches)])       # a sustain after a rest: trips the code's assert
+            else:
+                cur = rng.choice(pitches); evs.append([1, cur])
+        else:
+            evs.append([2, cur if rng.random() < 0.95 else rng.choice(pitches)])
+    return evs
+
+
+METERS = [(2, 2), (2, 4), (3, 4), (4, 4), (6, 8)]
+DEFAULT_CPB = {(2, 2): 1, (2, 4): 1, (3, 4): 1, (4, 4): 2, (6, 8): 2}     # expectation of the generator only
+
+
+def _gen_grid(rng):
+    """A quantization grid whose chord length is an exact number of ticks."""
+    while True:
+        num, den = rng.choice(METERS)
+        spq = rng.choice([1, 2, 4, 8])
+        qpm = rng.choice([60, 120, 120, 240])
+        cpb = rng.choice([None, None, 1, 2, 4])
+        c = DEFAULT_CPB[(num, den)] if cpb is None else cpb
+        steps_per_bar = spq * 4 * num
+        if steps_per_bar % (den * c):
+            continue
+        steps_per_chord = steps_per_bar // (den * c)
+        ticks = steps_per_chord * 60 * (2 ** 40)
+        if ticks % (spq * qpm):
+            continue
+        return {'num': num, 'den': den, 'spq': spq, 'qpm': qpm, 'cpb': cpb, 'spc': ticks // (spq * qpm),
+                'steps_per_chord': steps_per_chord}
+
+
+def _gen_beats(rng, T):
+    """T-1 distinct interior beat times, then duplicates / boundary / outside beats, shuffled.  Returns (beats, total)."""
+    t = 0
+    interior = []
+    for _ in range(T - 1):
+        t += rng.choice([16, 32, 64]) * GRID
+        interior.append(t + (1 if rng.random() < 0.05 else 0))
+    total = (interior[-1] if interior else 0) + rng.choice([16, 32]) * GRID
+    beats = list(interior)
+    for b in list(interior):
+        if rng.random() < 0.2:
+            beats.append(b)
+    beats += [0]
+    if rng.random() < 0.5:
+        beats.append(total)
+    if rng.random() < 0.2:
+        beats.append(total + GRID)
+    rng.shuffle(beats)
+    return beats, total
+
+
+def _gen_path(rng, T, nfig, nkey):
+    figs_pal = [rng.randrange(nfig) for _ in range(rng.randint(1, 3))]
+    keys_pal = [rng.randrange(nkey) for _ in range(rng.randint(1, 2))]
+    return [rng.choice(figs_pal) for _ in range(T)], [rng.choice(keys_pal) for _ in range(T)]
+
+
+KINDS = [[0, 4, 7], [0, 3, 7], [0, 4, 8], [0, 3, 6], [0, 4, 7, 10], [0, 4, 7, 11], [0, 3, 7, 10], [0, 3, 6, 10], [0], [0, 7]]
+
+
+def _gen_chord_notes(rng, frame_times, total):
+    """[pitch, start, end] with chordal content per frame, some notes crossing frame boundaries."""
+    roots = [rng.randrange(12) for _ in range(3)]
+    notes = []
+    bounds = list(frame_times) + [total]
+    for a, b in zip(bounds, bounds[1:]):
+        if rng.random() < 0.12:
+            continue
+        root = rng.choice(roots)
+        for iv in rng.choice(KINDS):
+            s = a if rng.random() < 0.7 else a + (b - a) // 2
+            e = b if rng.random() < 0.7 else min(total, b + (b - a) // 2)
+            notes.append([48 + (root + iv) % 12 + 12 * rng.randrange(2), s, max(e, s + 1)])
+    if not notes:
+        notes.append([60, 0, total])
+    # the last note ends exactly at total so that total_time is what the generator intended
+    notes.append([48 + rng.choice(roots), bounds[-2], total])
+    return notes
+
+
+CHORD_PARAMS = [None,
+                {'key_change_prob': 0.01, 'chord_change_prob': 0.3, 'chord_pitch_out_of_key_prob': 0.05},
+                {'key_change_prob': 0.0005, 'chord_change_prob': 0.7, 'chord_pitch_out_of_key_prob': 0.02},
+                {'key_change_prob': 0.1, 'chord_change_prob': 0.9, 'chord_pitch_out_of_key_prob': 0.2}]
+
+
+def _gen_melody_params(rng):
+    if rng.random() < 0.4:
+        return {}
+    return {'melody_interval_scale': rng.choice([0.5, 1.0, 2.0, 5.0]), 'rest_prob': rng.choice([0.01, 0.1, 0.5]),
+            'instantaneous_non_max_pitch_prob': rng.choice([1e-15, 1e-3, 0.2]),
+            'instantaneous_non_empty_rest_prob': rng.choice([0.0, 1e-6, 0.1]),
+            'instantaneous_missing_pitch_prob': rng.choice([1e-15, 1e-4, 0.3])}
+
+
+REJECTIONS = ['chords-has-chords', 'chords-unquantized-cpb', 'chords-no-beats', 'chords-uncommon-meter',
+              'chords-non-integer-steps', 'chords-empty', 'chords-too-long', 'melody-quantized', 'melody-too-many-frames',
+              'melody-no-pitches']
+EXPECTED_REJECTION = {
+    'chords-has-chords': 'SequenceAlreadyHasChordsError', 'chords-unquantized-cpb': 'QuantizationStatusError',
+    'chords-no-beats': 'QuantizationStatusError', 'chords-uncommon-meter': 'UncommonTimeSignatureError',
+    'chords-non-integer-steps': 'NonIntegerStepsPerChordError', 'chords-empty': 'EmptySequenceError',
+    'chords-too-long': 'SequenceTooLongError', 'melody-quantized': 'MelodyInferenceError',
+    'melody-too-many-frames': 'MelodyInferenceError', 'melody-no-pitches': None}
+
+
+def corpus():
+    out = [{'op': 'reject', 'input': {'which': w}} for w in REJECTIONS]
+    # boundary cases (some are past failures of this check, see notes/C19.md)
+    out.append({'op': 'chord_write', 'input': {'mode': 'beats', 'beats': [0], 'total': 32 * GRID, 'figs': [2], 'keys': [2]}})
+    out.append({'op': 'chord_write', 'input': {'mode': 'beats', 'beats': [32 * GRID, 0, 32 * GRID, 64 * GRID], 'total': 64 * GRID,
+                                                'figs': [5, 5], 'keys': [0, 7]}})
+    zl = [[60, 0, 64 * GRID, 0, 0, 0], [72, 64 * GRID, 64 * GRID, 0, 0, 0]]
+    out.append({'op': 'note_frames', 'input': {'notes': zl, 'total': 64 * GRID}})
+    out.append({'op': 'melody_e2e', 'input': {'notes': zl, 'total': 64 * GRID, 'k': 3, 'params': {}}})
+    out.append({'op': 'melody_e2e', 'input': {'notes': [[60, 0, 64 * GRID, 0, 0, 0], [64, 64 * GRID, 128 * GRID, 0, 0, 0]],
+                                               'total': 128 * GRID, 'k': 5, 'params': {}}})
+    out.append({'op': 'melody_vit', 'input': {'pitches': [60], 'trans': [[0, 0, None], [0, 0, 0], [0, 0, 0]],
+                                               'frames': [[None, None, None], [None, None, None]]}})
+    return out
+
+
 # ------------------------------------------------------------------ cases
 def cases(rng, tier, n=None):
     out = []
     thorough = tier == 'thorough'
-    nm = 2500 if thorough else 250
-    for _ in range(nm):
+    for _ in range(3000 if thorough else 300):
         npitch = rng.randint(1, 4)
         m = 2 * npitch + 1
-        T = rng.choice([1, 1, 2, 3, 4, 6, 9, 14])
+        T = rng.choice([1, 1, 2, 3, 4, 6, 9, 14]) if not thorough else rng.choice([1, 2, 3, 4, 6, 9, 14, 40])
         lo = rng.choice([-1, -2, -3, -10, -1000])
-        pinf = rng.choice([0.0, 0.1, 0.3])
-        out.append({'op': 'melody_vit', 'input': {'np': npitch, 'trans': _rand_mat(rng, m, m, lo, pinf),
+        pinf = rng.choice([0.0, 0.1, 0.3, 0.6])
+        out.append({'op': 'melody_vit', 'input': {'pitches': sorted(rng.sample(range(128), npitch)),
+                                                   'trans': _rand_mat(rng, m, m, lo, pinf),
                                                    'frames': _rand_mat(rng, T, m, lo, pinf * 0.5)}})
-    nc_cases = 600 if thorough else 80
-    for _ in range(nc_cases):
+    for _ in range(500 if thorough else 60):        # plain-integer instance of the generic model
+        npitch = rng.randint(1, 3)
+        m = 2 * npitch + 1
+        T = rng.choice([1, 2, 3, 5, 8])
+        lo = rng.choice([-1, -2, -5, -100])
+        out.append({'op': 'melody_vit_z', 'input': {'pitches': sorted(rng.sample(range(128), npitch)),
+                                                     'trans': _rand_mat(rng, m, m, lo, 0.0),
+                                                     'frames': _rand_mat(rng, T, m, lo, 0.0)}})
+    for _ in range(600 if thorough else 80):
         nc = rng.randint(1, 3)
         n_states = 12 * nc
         T = rng.choice([1, 2, 3, 5, 8])
@@ -96,105 +304,174 @@ def cases(rng, tier, n=None):
         out.append({'op': 'chord_vit', 'input': {'nc': nc, 'kc': _rand_mat(rng, 12, nc, lo, 0.05),
                                                   'trans': _rand_mat(rng, n_states, n_states, lo, 0.1),
                                                   'frames': _rand_mat(rng, T, nc, lo, 0.05)}})
+    for _ in range(3000 if thorough else 300):
+        notes, total = _gen_melody_notes(rng, rng.randint(1, 40 if thorough else 9))
+        out.append({'op': 'note_frames', 'input': {'notes': notes, 'total': total}})
     # writer loops
-    for _ in range(1500 if thorough else 200):
-        T = rng.randint(1, 12)
-        figs = [rng.randrange(0, 4) for _ in range(T)]
-        keys = [rng.randrange(0, 3) for _ in range(T)]
-        out.append({'op': 'chord_write', 'input': {'figs': figs, 'keys': keys, 'beats': rng.random() < 0.5,
-                                                    'seed': rng.randrange(10 ** 6)}})
-    for _ in range(1500 if thorough else 200):
-        out.append({'op': 'melody_write', 'input': {'seed': rng.randrange(10 ** 6), 'n': rng.randint(1, 7)}})
+    for _ in range(2500 if thorough else 250):
+        T = rng.randint(1, 64 if thorough else 12)
+        figs, keys = _gen_path(rng, T, 97, 12)
+        mode = rng.choice(['fixed', 'fixed', 'beats', 'beats_q'])
+        if mode == 'fixed':
+            g = _gen_grid(rng)
+            g.update({'mode': mode, 'total': (T - 1) * g['spc'] + rng.choice([g['spc'], g['spc'] // 2, 1]),
+                      'figs': figs, 'keys': keys})
+            out.append({'op': 'chord_write', 'input': g})
+        else:
+            beats, total = _gen_beats(rng, T)
+            out.append({'op': 'chord_write', 'input': {'mode': mode, 'beats': beats, 'total': total, 'figs': figs, 'keys': keys}})
+    for _ in range(2500 if thorough else 250):
+        notes, total = _gen_melody_notes(rng, rng.randint(1, 30 if thorough else 7))
+        out.append({'op': 'melody_write', 'input': {'notes': notes, 'total': total, 'events': _gen_events(rng, notes, total)}})
     # end to end
-    for _ in range(200 if thorough else 25):
-        out.append({'op': 'chords_e2e', 'input': {'seed': rng.randrange(10 ** 6), 'n': rng.randint(1, 14),
-                                                   'k': rng.randint(1, 11)}})
-    for _ in range(300 if thorough else 40):
-        out.append({'op': 'melody_e2e', 'input': {'seed': rng.randrange(10 ** 6), 'n': rng.randint(1, 12),
-                                                   'k': rng.randint(1, 11)}})
+    for i in range(150 if thorough else 14):
+        T = rng.randint(1, 64 if thorough and i % 5 == 0 else 10)
+        params = dict(CHORD_PARAMS[rng.randrange(4 if thorough else 2)] or {})
+        params['chord_note_concentration'] = rng.choice([100.0, 100.0, 10.0, 37.5])
+        inp = {'k': rng.randint(1, 11), 'params': params, 'addkeys': rng.random() < 0.5}
+        if rng.random() < 0.6:
+            g = _gen_grid(rng)
+            total = (T - 1) * g['spc'] + rng.choice([g['spc'], g['spc'] // 2])
+            inp.update(g)
+            inp.update({'mode': 'fixed', 'total': total,
+                        'notes': _gen_chord_notes(rng, [k * g['spc'] for k in range(T)], total)})
+        else:
+            beats, total = _gen_beats(rng, T)
+            ft = [0] + sorted(set(b for b in beats if 0 < b < total))
+            inp.update({'mode': rng.choice(['beats', 'beats_q']), 'beats': beats, 'total': total,
+                        'notes': _gen_chord_notes(rng, ft, total)})
+        out.append({'op': 'chords_e2e', 'input': inp})
+    for i in range(1500 if thorough else 150):
+        notes, total = _gen_melody_notes(rng, rng.randint(1, 100 if thorough and i % 10 == 0 else 12))
+        out.append({'op': 'melody_e2e', 'input': {'notes': notes, 'total': total, 'k': rng.randint(1, 11),
+                                                   'params': _gen_melody_params(rng)}})
     if thorough:
         for _ in range(2):
             out.append({'op': 'chord_vit_full', 'input': {'seed': rng.randrange(10 ** 6), 'T': 3}})
     if n is not None:
+        rng.shuffle(out)
         out = out[:n]
     return out
 
 
-# ------------------------------------------------------------------ sequences for writer / e2e cases
-def _melody_seq(seed, n, shift=0):
-    import random
+# ------------------------------------------------------------------ building real sequences
+def _melody_proto(notes, total, shift=0):
     from note_seq.protobuf import music_pb2
-    r = random.Random(seed)
     ns = music_pb2.NoteSequence()
-    pitches = r.sample(range(50, 80), min(4, n))
-    t = 0.0
-    for _ in range(n):
-        t += r.choice([0, 0.25, 0.5, 1.0])
-        d = r.choice([0.25, 0.5, 1.0, 2.0])
+    for p, s, e, instr, drum, prog in notes:
         note = ns.notes.add()
-        note.pitch = r.choice(pitches) + shift
+        note.pitch = p + shift
         note.velocity = 80
-        note.start_time = t
-        note.end_time = t + d
-        note.instrument = r.randrange(2)
-    ns.total_time = max(x.end_time for x in ns.notes) + r.choice([0, 0.5])
+        note.start_time = _sec(s)
+        note.end_time = _sec(e)
+        note.instrument = instr
+        note.is_drum = bool(drum)
+        note.program = prog
+    ns.total_time = _sec(total)
     return ns
 
 
-def _chord_seq(seed, n, shift=0, beats=False):
-    import random
+def _chord_proto(a, notes, shift=0):
+    """The sequence of a chord_write / chords_e2e case (quantized as the mode says)."""
     from note_seq.protobuf import music_pb2
     from note_seq import sequences_lib
-    r = random.Random(seed)
     ns = music_pb2.NoteSequence()
-    ns.tempos.add().qpm = 120
-    ts = ns.time_signatures.add(); ts.numerator = 4; ts.denominator = 4
-    roots = [r.randrange(12) for _ in range(4)]
-    t = 0.0
-    for _ in range(n):
-        root = r.choice(roots)
-        for iv in r.choice([[0, 4, 7], [0, 3, 7], [0, 4, 7, 10], [0], [0, 7]]):
-            note = ns.notes.add()
-            note.pitch = 48 + (root + iv + shift) % 12 + 12 * r.randrange(2)
-            note.velocity = 80
-            note.start_time = t
-            note.end_time = t + r.choice([0.5, 1.0, 2.0])
-        t += r.choice([0.5, 1.0, 2.0])
-    ns.total_time = max(x.end_time for x in ns.notes)
-    if beats:
-        b = 0.5
-        while b < ns.total_time:
-            ta = ns.text_annotations.add()
-            ta.time = b
-            ta.annotation_type = music_pb2.NoteSequence.TextAnnotation.BEAT
-            b += r.choice([0.5, 1.0])
-        return ns
-    return sequences_lib.quantize_note_sequence(ns, 4)
+    for p, s, e in notes:
+        note = ns.notes.add()
+        note.pitch = p + shift
+        note.velocity = 80
+        note.start_time = _sec(s)
+        note.end_time = _sec(e)
+    ns.total_time = _sec(a['total'])
+    if a['mode'] == 'fixed':
+        ns.tempos.add().qpm = a['qpm']
+        ts = ns.time_signatures.add()
+        ts.numerator, ts.denominator = a['num'], a['den']
+        return sequences_lib.quantize_note_sequence(ns, a['spq'])
+    for b in a['beats']:
+        ta = ns.text_annotations.add()
+        ta.time = _sec(b)
+        ta.annotation_type = music_pb2.NoteSequence.TextAnnotation.BEAT
+    if a['mode'] == 'beats_q':
+        return sequences_lib.quantize_note_sequence_absolute(ns, 64)
+    return ns
+
+
+def _frame_times(a, T=None):
+    """Frame start times the property speaks about, from the case description alone."""
+    if a['mode'] == 'fixed':
+        n = T if T is not None else -(-a['total'] // a['spc'])
+        return [k * a['spc'] for k in range(n)]
+    return [0] + sorted(set(b for b in a['beats'] if 0 < b < a['total']))
+
+
+_TD_CACHE = {}
+
+
+class _memo_transition(object):
+    """_key_chord_transition_distribution is a pure 1164 x 1164 Python double loop (0.8 s); the real function is called
+    once per distinct argument tuple and its result re-used."""
+
+    def __enter__(self):
+        from note_seq import chord_inference as ci
+        self.ci, self.orig = ci, ci._key_chord_transition_distribution
+        orig = self.orig
+
+        def memo(key_chord_distribution, key_change_prob, chord_change_prob):
+            k = (key_chord_distribution.tobytes(), key_change_prob, chord_change_prob)
+            if k not in _TD_CACHE:
+                if len(_TD_CACHE) > 6:
+                    _TD_CACHE.clear()
+                _TD_CACHE[k] = orig(key_chord_distribution, key_change_prob=key_change_prob,
+                                    chord_change_prob=chord_change_prob)
+            return _TD_CACHE[k].copy()
+        ci._key_chord_transition_distribution = memo
+        return self
+
+    def __exit__(self, *exc):
+        self.ci._key_chord_transition_distribution = self.orig
+        return False
+
+
+def _fig_names():
+    from note_seq import chord_inference as ci, constants
+    names = {}
+    for i, c in enumerate(ci._CHORDS):
+        names[constants.NO_CHORD if c == constants.NO_CHORD else '%s%s' % (ci._PITCH_CLASS_NAMES[c[0]], c[1])] = i
+    return names
 
 
 # ------------------------------------------------------------------ implementation
 def impl(case):
-    import numpy as np
+    return _impl(case)
+
+
+def _events_to_path(ev, pitches, mi):
+    path, evs = [], []
+    for e in ev:
+        if e == mi.REST:
+            path.append(0); evs.append([0, 0])
+        else:
+            p, onset = e
+            path.append(pitches.index(p) + 1 + (0 if onset else len(pitches)))
+            evs.append([1 if onset else 2, int(p)])
+    return path, evs
+
+
+def _impl(case):
     op, a = case['op'], case['input']
-    if op == 'melody_vit':
+    if op in ('melody_vit', 'melody_vit_z'):
         from note_seq import melody_inference as mi
-        pitches = list(range(60, 60 + a['np']))
-        ev = mi._melody_viterbi(pitches, _np(a['frames']), _np(a['trans']))
-        path = []
-        for e in ev:
-            if e == mi.REST:
-                path.append(0)
-            else:
-                p, onset = e
-                path.append((p - 60 + 1) if onset else (p - 60 + 1 + a['np']))
-        return ['OK', path]
+        ev = mi._melody_viterbi(a['pitches'], _np(a['frames']), _np(a['trans']))
+        path, evs = _events_to_path(ev, a['pitches'], mi)
+        return ['OK', path, evs]
     if op in ('chord_vit', 'chord_vit_full'):
         from note_seq import chord_inference as ci
         if op == 'chord_vit_full':
             a = _full_chord_input(a)
             chords = ci._CHORDS
             res = ci._key_chord_viterbi(_np(a['frames']), _np(a['kc']), _np(a['trans']))
-            return ['OK', [k * len(chords) + chords.index(c) for k, c in res]]
+            return ['OK', [int(k) * len(chords) + chords.index(c) for k, c in res]]
         old = (ci._CHORDS, ci._KEY_CHORDS)
         try:
             ci._CHORDS = list(range(a['nc']))
@@ -203,6 +480,8 @@ def impl(case):
         finally:
             ci._CHORDS, ci._KEY_CHORDS = old
         return ['OK', [int(k) * a['nc'] + int(c) for k, c in res]]
+    if op == 'note_frames':
+        return _impl_note_frames(a)
     if op == 'chord_write':
         return _impl_chord_write(a)
     if op == 'melody_write':
@@ -211,6 +490,8 @@ def impl(case):
         return _impl_chords_e2e(a)
     if op == 'melody_e2e':
         return _impl_melody_e2e(a)
+    if op == 'reject':
+        return _impl_reject(a)
     raise ValueError(op)
 
 
@@ -231,85 +512,57 @@ def _full_chord_input(a):
     return _FULL_CACHE[key]
 
 
-FIGS = [None, (0, ''), (7, 'm'), (2, '7')]     # None = NO_CHORD
+def _impl_note_frames(a):
+    from note_seq import melody_inference as mi
+    ns = _melody_proto(a['notes'], a['total'])
+    pitches, has_onsets, has_notes, event_times = mi.sequence_note_frames(ns)
+    return ['OK', [int(p) for p in pitches], [_tk(t) for t in event_times],
+            [[int(bool(x)) for x in row] for row in has_onsets], [[int(bool(x)) for x in row] for row in has_notes]]
 
 
 def _impl_chord_write(a):
     """Drive the annotation-writing loop of infer_chords_for_sequence with a chosen key/chord path."""
-    from note_seq import chord_inference as ci, constants
+    from note_seq import chord_inference as ci
     from note_seq.protobuf import music_pb2
-    T = len(a['figs'])
-    # a sequence with exactly T chord frames
-    ns = music_pb2.NoteSequence()
-    ns.tempos.add().qpm = 120
-    ts = ns.time_signatures.add(); ts.numerator = 4; ts.denominator = 4
-    note = ns.notes.add(); note.pitch = 60; note.velocity = 80; note.start_time = 0.0
-    if a['beats']:
-        import random
-        r = random.Random(a['seed'])
-        t = 0.0
-        for _ in range(T - 1):
-            t += r.choice([0.25, 0.5, 1.0])
-            ta = ns.text_annotations.add(); ta.time = t
-            ta.annotation_type = music_pb2.NoteSequence.TextAnnotation.BEAT
-        note.end_time = t + 0.5
-        ns.total_time = t + 0.5
-        seq = ns
-        times = [0.0] + [x.time for x in ns.text_annotations]
-    else:
-        from note_seq import sequences_lib
-        note.end_time = T * 1.0          # 2 chords per 4/4 bar at 120 qpm => 1 s per chord frame
-        ns.total_time = T * 1.0
-        seq = sequences_lib.quantize_note_sequence(ns, 4)
-        times = [float(i) for i in range(T)]
-    path = [(k, constants.NO_CHORD if FIGS[f] is None else FIGS[f]) for k, f in zip(a['keys'], a['figs'])]
+    seq = _chord_proto(a, [[60, 0, a['total']]])
+    path = [(k, ci._CHORDS[f]) for k, f in zip(a['keys'], a['figs'])]
+    kw = {'add_key_signatures': True}
+    if a['mode'] == 'fixed' and a['cpb'] is not None:
+        kw['chords_per_bar'] = a['cpb']
     orig = ci._key_chord_viterbi
-    try:
-        ci._key_chord_viterbi = lambda *args, **kw: list(path)
+    got = {}
+    with _memo_transition():
         try:
-            ci.infer_chords_for_sequence(seq, add_key_signatures=True)
-        except Exception as e:
-            return ['EXC', type(e).__name__]
-    finally:
-        ci._key_chord_viterbi = orig
-    names = {}
-    for i, f in enumerate(FIGS):
-        names[constants.NO_CHORD if f is None else '%s%s' % (ci._PITCH_CLASS_NAMES[f[0]], f[1])] = i
-    written = [[int(round(ta.time * 1024)), names[ta.text]] for ta in seq.text_annotations
-               if ta.annotation_type == music_pb2.NoteSequence.TextAnnotation.CHORD_SYMBOL]
-    keys = [[int(round(k.time * 1024)), k.key] for k in seq.key_signatures]
-    return ['OK', written, keys, [int(round(t * 1024)) for t in times]]
-
-
-def _melody_events(a):
-    """A melody-event path consistent with the frames of a generated sequence (random but assert-safe or not)."""
-    import random
-    from note_seq import melody_inference as mi
-    ns = _melody_seq(a['seed'], a['n'])
-    pitches, has_onsets, has_notes, event_times = mi.sequence_note_frames(ns)
-    r = random.Random(a['seed'] + 1)
-    T = len(event_times) + 1
-    evs = []
-    cur = None
-    for _ in range(T):
-        c = r.random()
-        if c < 0.25:
-            evs.append([0, 0]); cur = None
-        elif c < 0.65 or cur is None:
-            if r.random() < 0.08 and cur is None:
-                p = r.choice(pitches); evs.append([2, p])       # a sustain after a rest: trips the code's assert
-            else:
-                cur = r.choice(pitches); evs.append([1, cur])
-        else:
-            evs.append([2, cur if r.random() < 0.95 else r.choice(pitches)])
-    return ns, event_times, evs
+            def fake(chord_frame_loglik, *args, **kwargs):
+                got['frames'] = int(chord_frame_loglik.shape[0])
+                return list(path)
+            ci._key_chord_viterbi = fake
+            try:
+                ci.infer_chords_for_sequence(seq, **kw)
+            except Exception as e:
+                return ['EXC', type(e).__name__]
+        finally:
+            ci._key_chord_viterbi = orig
+    names = _fig_names()
+    if len(names) != len(ci._CHORDS):
+        return ['FIGURES-NOT-DISTINCT']
+    CH = music_pb2.NoteSequence.TextAnnotation.CHORD_SYMBOL
+    anns = [ta for ta in seq.text_annotations if ta.annotation_type == CH]
+    written = [[_tk(ta.time), names.get(ta.text, ta.text)] for ta in anns]
+    keys = [[_tk(k.time), int(k.key)] for k in seq.key_signatures]
+    steps = [int(ta.quantized_step) for ta in anns]
+    beat_steps = {}
+    for ta in seq.text_annotations:
+        if ta.annotation_type == music_pb2.NoteSequence.TextAnnotation.BEAT:
+            beat_steps.setdefault(_tk(ta.time), int(ta.quantized_step))
+    return ['OK', written, keys, steps, got.get('frames'), sorted(beat_steps.items())]
 
 
 def _impl_melody_write(a):
     from note_seq import melody_inference as mi
-    ns, event_times, evs = _melody_events(a)
+    ns = _melody_proto(a['notes'], a['total'])
     n0 = len(ns.notes)
-    path = [mi.REST if k == 0 else (p, k == 1) for k, p in evs]
+    path = [mi.REST if k == 0 else (p, k == 1) for k, p in a['events']]
     orig = mi._melody_viterbi
     try:
         mi._melody_viterbi = lambda *args, **kw: list(path)
@@ -321,9 +574,10 @@ def _impl_melody_write(a):
             return ['EXC', type(e).__name__]
     finally:
         mi._melody_viterbi = orig
-    notes = [[int(round(x.start_time * 1024)), int(round(x.end_time * 1024)), x.pitch] for x in ns.notes[n0:]]
-    ok_instr = all(x.instrument == instr for x in ns.notes[n0:])
-    return ['OK', notes, ok_instr]
+    notes = [[_tk(x.start_time), _tk(x.end_time), int(x.pitch)] for x in ns.notes[n0:]]
+    ok_instr = all(x.instrument == instr and x.velocity == mi.MELODY_VELOCITY for x in ns.notes[n0:])
+    used = sorted(set(x.instrument for x in ns.notes[:n0]))
+    return ['OK', notes, bool(ok_instr), int(instr), used]
 
 
 def _capture(module, name):
@@ -339,6 +593,7 @@ def _capture(module, name):
 
 
 def _float_dp(init, trans, frames):
+    """Independent DP (no back-pointers): the maximum over all paths of the left-nested float score."""
     import numpy as np
     v = np.array(init, dtype=float)
     for e in frames:
@@ -358,28 +613,36 @@ def _impl_chords_e2e(a):
     from note_seq import chord_inference as ci
     from note_seq.protobuf import music_pb2
     out = []
+    names = _fig_names()
+    kw = dict(a['params'])
+    kw['add_key_signatures'] = a['addkeys']
+    if a['mode'] == 'fixed' and a['cpb'] is not None:
+        kw['chords_per_bar'] = a['cpb']
     for shift in (0, a['k']):
-        seq = _chord_seq(a['seed'], a['n'], shift=shift, beats=(a['seed'] % 3 == 0))
+        seq = _chord_proto(a, a['notes'], shift=shift)
         orig, wrapper, store = _capture(ci, '_key_chord_viterbi')
-        try:
-            ci._key_chord_viterbi = wrapper
+        with _memo_transition():
             try:
-                ci.infer_chords_for_sequence(seq)
-            except ci.ChordInferenceError as e:
-                return ['EXC', type(e).__name__]
-        finally:
-            ci._key_chord_viterbi = orig
+                ci._key_chord_viterbi = wrapper
+                try:
+                    ci.infer_chords_for_sequence(seq, **kw)
+                except Exception as e:
+                    return ['EXC', type(e).__name__]
+            finally:
+                ci._key_chord_viterbi = orig
         frame_ll, kc_ll, trans_ll = store['args']
         nc = len(ci._CHORDS)
-        path = [k * nc + ci._CHORDS.index(c) for k, c in store['res']]
+        path = [int(k) * nc + ci._CHORDS.index(c) for k, c in store['res']]
         init = np.array([-np.log(12) + kc_ll[i // nc, i % nc] + frame_ll[0, i % nc] for i in range(12 * nc)])
         frames = [np.tile(frame_ll[t], 12) for t in range(1, frame_ll.shape[0])]
         attained = _float_path_score(init, trans_ll, frames, path)
         best = _float_dp(init, trans_ll, frames)
-        anns = [(ta.time, ta.text) for ta in seq.text_annotations
-                if ta.annotation_type == music_pb2.NoteSequence.TextAnnotation.CHORD_SYMBOL]
-        out.append({'attained': attained, 'best': best, 'anns': anns, 'frames': int(frame_ll.shape[0]),
-                    'total': seq.total_time})
+        CH = music_pb2.NoteSequence.TextAnnotation.CHORD_SYMBOL
+        anns = [[_tk(ta.time), names.get(ta.text, ta.text), int(ta.quantized_step)] for ta in seq.text_annotations
+                if ta.annotation_type == CH]
+        keys = [[_tk(k.time), int(k.key)] for k in seq.key_signatures]
+        out.append({'attained': attained, 'best': best, 'anns': anns, 'keys': keys, 'frames': int(frame_ll.shape[0]),
+                    'path': path, 'finite': bool(np.isfinite(best))})
     return ['OK', out]
 
 
@@ -388,40 +651,110 @@ def _impl_melody_e2e(a):
     from note_seq import melody_inference as mi
     out = []
     for shift in (0, a['k']):
-        ns = _melody_seq(a['seed'], a['n'], shift=shift)
+        ns = _melody_proto(a['notes'], a['total'], shift=shift)
         n0 = len(ns.notes)
-        orig_notes = [(x.pitch, x.start_time) for x in ns.notes]
         orig, wrapper, store = _capture(mi, '_melody_viterbi')
         try:
             mi._melody_viterbi = wrapper
             try:
-                mi.infer_melody_for_sequence(ns)
-            except mi.MelodyInferenceError as e:
+                mi.infer_melody_for_sequence(ns, **a['params'])
+            except Exception as e:
                 return ['EXC', type(e).__name__]
         finally:
             mi._melody_viterbi = orig
+        notes = [[_tk(x.start_time), _tk(x.end_time), int(x.pitch) - shift] for x in ns.notes[n0:]]
+        if 'args' not in store:
+            out.append({'attained': 0.0, 'best': 0.0, 'notes': notes, 'frames': 0, 'delta': 0.0, 'frame_ll': '', 'nan': False})
+            continue
         pitches, frame_ll, trans_ll = store['args']
-        path = []
-        for e in store['res']:
-            if e == mi.REST:
-                path.append(0)
-            else:
-                p, onset = e
-                path.append(pitches.index(p) + 1 + (0 if onset else len(pitches)))
+        path, _ = _events_to_path(store['res'], list(pitches), mi)
         init = trans_ll[0, :] + frame_ll[0, :]
         frames = [frame_ll[t] for t in range(1, frame_ll.shape[0])]
         attained = _float_path_score(init, trans_ll, frames, path)
         best = _float_dp(init, trans_ll, frames)
-        notes = [(x.start_time, x.end_time, x.pitch) for x in ns.notes[n0:]]
-        out.append({'attained': attained, 'best': best, 'notes': notes, 'orig': orig_notes, 'total': ns.total_time})
+        import hashlib
+        out.append({'attained': attained, 'best': best, 'notes': notes, 'frames': int(frame_ll.shape[0]),
+                    'trans': trans_ll, 'frame_ll': hashlib.sha1(frame_ll.tobytes()).hexdigest(),
+                    'nan': bool(np.isnan(frame_ll).any() or np.isnan(trans_ll).any())})
+    # how far the two transition matrices are apart (the only part of the melody HMM that sees absolute pitch)
+    if 'trans' in out[0] and 'trans' in out[1]:
+        t0, t1 = out[0].pop('trans'), out[1].pop('trans')
+        if t0.shape == t1.shape:
+            fin = np.isfinite(t0) & np.isfinite(t1)
+            same_inf = bool((np.isfinite(t0) == np.isfinite(t1)).all())
+            delta = float(np.abs(t0[fin] - t1[fin]).max()) if fin.any() else 0.0
+        else:
+            same_inf, delta = False, float('inf')
+        out[0]['delta'] = out[1]['delta'] = delta
+        out[0]['same_inf'] = out[1]['same_inf'] = same_inf
     return ['OK', out]
 
 
+def _impl_reject(a):
+    from note_seq import chord_inference as ci, melody_inference as mi, sequences_lib
+    from note_seq.protobuf import music_pb2
+    w = a['which']
+    ns = music_pb2.NoteSequence()
+    note = ns.notes.add(); note.pitch = 60; note.velocity = 80; note.start_time = 0.0; note.end_time = 2.0
+    ns.total_time = 2.0
+    ns.tempos.add().qpm = 120
+    ts = ns.time_signatures.add(); ts.numerator = 4; ts.denominator = 4
+    kw = {}
+    fn = ci.infer_chords_for_sequence
+    if w == 'chords-has-chords':
+        seq = sequences_lib.quantize_note_sequence(ns, 4)
+        ta = seq.text_annotations.add(); ta.text = 'C'
+        ta.annotation_type = music_pb2.NoteSequence.TextAnnotation.CHORD_SYMBOL
+    elif w == 'chords-unquantized-cpb':
+        seq = ns; kw['chords_per_bar'] = 2
+    elif w == 'chords-no-beats':
+        seq = ns
+    elif w == 'chords-uncommon-meter':
+        ts.numerator = 5
+        seq = sequences_lib.quantize_note_sequence(ns, 4)
+    elif w == 'chords-non-integer-steps':
+        ts.numerator = 3
+        seq = sequences_lib.quantize_note_sequence(ns, 1); kw['chords_per_bar'] = 2
+    elif w == 'chords-empty':
+        del ns.notes[:]; ns.total_time = 0.0
+        seq = sequences_lib.quantize_note_sequence(ns, 4)
+    elif w == 'chords-too-long':
+        note.end_time = 1000.5; ns.total_time = 1000.5
+        seq = sequences_lib.quantize_note_sequence(ns, 1)      # 1 s per chord => 1001 chords
+    elif w == 'melody-quantized':
+        seq = sequences_lib.quantize_note_sequence(ns, 4); fn = mi.infer_melody_for_sequence
+    elif w == 'melody-too-many-frames':
+        del ns.notes[:]
+        for i in range(mi.MAX_NUM_FRAMES + 1):
+            x = ns.notes.add(); x.pitch = 60; x.velocity = 80; x.start_time = i * 0.25; x.end_time = (i + 1) * 0.25
+        ns.total_time = (mi.MAX_NUM_FRAMES + 1) * 0.25
+        seq = ns; fn = mi.infer_melody_for_sequence
+    elif w == 'melody-no-pitches':
+        note.is_drum = True
+        seq = ns; fn = mi.infer_melody_for_sequence
+    else:
+        raise ValueError(w)
+    before = seq.SerializeToString(deterministic=True)
+    with _memo_transition():
+        try:
+            fn(seq, **kw)
+        except Exception as e:
+            return ['EXC', type(e).__name__, seq.SerializeToString(deterministic=True) == before]
+    return ['OK', None, seq.SerializeToString(deterministic=True) == before]
+
+
 # ------------------------------------------------------------------ model
+def _wire_notes(notes):
+    return [[p, s, e, drum, prog] for p, s, e, instr, drum, prog in notes]
+
+
 def model_input(case):
     op, a = case['op'], case['input']
     if op == 'melody_vit':
-        return [1, _wire_mat(_cols(a['trans'])), _wire_mat([a['frames'][0]])[0], _wire_mat(a['frames'][1:])]
+        return [1, _wire_mat(_cols(a['trans'])), _wire_mat([a['frames'][0]])[0], _wire_mat(a['frames'][1:]), a['pitches']]
+    if op == 'melody_vit_z':
+        init = [a['trans'][0][j] + a['frames'][0][j] for j in range(len(a['frames'][0]))]
+        return [5, _cols(a['trans']), init, a['frames'][1:]]
     if op in ('chord_vit', 'chord_vit_full'):
         if op == 'chord_vit_full':
             a = _full_chord_input(a)
@@ -432,25 +765,29 @@ def model_input(case):
         if cnt != 1:
             return None         # ties could be broken differently by the rounding of -log 12 (see ASSUMPTIONS)
         return [2, 12, _wire_mat(a['kc']), _wire_mat(_cols(a['trans'])), _wire_mat(a['frames'])]
+    if op == 'note_frames':
+        return [6, _wire_notes(a['notes']), a['total']]
     if op == 'chord_write':
-        io = _impl_chord_write(a)
-        if io[0] != 'OK':
-            return None
-        times = io[3]
-        return [3, [[t, f] for t, f in zip(times, a['figs'])]]
+        if a['mode'] == 'fixed':
+            return [3, 0, a['spc'], a['total'], a['figs'], a['keys']]
+        return [3, 1, a['beats'], a['total'], a['figs'], a['keys']]
     if op == 'melody_write':
-        ns, event_times, evs = _melody_events(a)
-        times = [0] + [int(round(t * 1024)) for t in event_times]
-        return [4, [[k, p, t] for (k, p), t in zip(evs, times)], int(round(ns.total_time * 1024))]
+        return [4, a['events'], _wire_notes(a['notes']), a['total']]
     return None
 
 
 def model_output(case, m):
     op = case['op']
-    if op in ('melody_vit', 'chord_vit', 'chord_vit_full'):
-        return ['OK', m[0]]
-    if op == 'chord_write':
+    if op == 'melody_vit':
+        return ['OK', m[0], m[2]]
+    if op == 'melody_vit_z':
         return ['OK', m]
+    if op in ('chord_vit', 'chord_vit_full'):
+        return ['OK', m[0]]
+    if op == 'note_frames':
+        return ['OK', m[0], m[1], m[2], m[3]]
+    if op == 'chord_write':
+        return ['OK', m[0], m[1], m[2]]
     if op == 'melody_write':
         if m[0] == -1000:
             return ['ASSERT']
@@ -459,8 +796,11 @@ def model_output(case, m):
 
 def equal(case, io, mo):
     op = case['op']
-    if op == 'chord_write':
+    if op == 'melody_vit_z':
         return io[0] == 'OK' and io[1] == mo[1]
+    if op == 'chord_write':
+        # chord annotations and key signatures; the model's frame grid must have as many frames as the implementation's
+        return io[0] == 'OK' and io[1] == mo[1] and io[2] == mo[2] and io[4] == len(mo[3])
     if op == 'melody_write':
         if mo[0] == 'ASSERT':
             return io[0] == 'ASSERT'
@@ -469,12 +809,38 @@ def equal(case, io, mo):
 
 
 # ------------------------------------------------------------------ oracle
+def _in_force(written, t):
+    cur = None
+    for w in written:
+        if isinstance(w[0], int) and w[0] <= t:
+            cur = w[1]
+    return cur
+
+
+def _check_annotations(prefix, written, times, path_figs):
+    """The property's clauses about written chord annotations (or key signatures) against a frame grid and a path."""
+    ts = [w[0] for w in written]
+    if any(t not in times for t in ts):
+        return {'kind': prefix + '-off-frame-boundary', 'times': [str(t) for t in ts if t not in times][:3]}
+    if any(not (x < y) for x, y in zip(ts, ts[1:])):
+        return {'kind': prefix + '-times-not-increasing'}
+    if any(x[1] == y[1] for x, y in zip(written, written[1:])):
+        return {'kind': prefix + '-consecutive-symbols-equal'}
+    if len(written) > len(times):
+        return {'kind': prefix + '-more-than-one-per-frame'}
+    if path_figs is not None:
+        for t, f in zip(times, path_figs):
+            if _in_force(written, t) != f:
+                return {'kind': prefix + '-in-force-differs-from-path', 'frame_time': t}
+    return None
+
+
 def oracle(case, io):
     op, a = case['op'], case['input']
-    if io[0] == 'EXC' and op in ('chords_e2e', 'melody_e2e'):
-        return None
-    if op == 'melody_vit':
-        m = 2 * a['np'] + 1
+    if io[0] == 'HARNESS-EXC':
+        return {'kind': 'harness-exception', 'detail': io[1:]}
+    if op in ('melody_vit', 'melody_vit_z'):
+        m = 2 * len(a['pitches']) + 1
         init = [None if (a['trans'][0][j] is None or a['frames'][0][j] is None) else a['trans'][0][j] + a['frames'][0][j]
                 for j in range(m)]
         best, _ = _dp_best(init, a['trans'], a['frames'][1:])
@@ -500,34 +866,36 @@ def oracle(case, io):
         if sc != best:
             return {'kind': 'chord-viterbi-path-not-optimal', 'attained': str(sc), 'best': str(best)}
         return None
+    if op == 'note_frames':
+        # every onset mark sits in the frame that starts at the start time of a real note of that pitch
+        pitches, et, on, no = io[1], io[2], io[3], io[4]
+        starts = [0] + et
+        mel = [x for x in a['notes'] if _melodic(x)]
+        for f, row in enumerate(on):
+            for j, v in enumerate(row):
+                if v and not any(x[0] == pitches[j] and x[1] == starts[f] for x in mel):
+                    return {'kind': 'onset-frame-does-not-start-at-a-note-of-that-pitch', 'frame': f, 'pitch': pitches[j]}
+        return None
     if op == 'chord_write':
         if io[0] != 'OK':
             return {'kind': 'chord-write-raised', 'exc': io}
-        written, keys, times = io[1], io[2], io[3]
-        figs = a['figs']
-        # one change per frame boundary at most, on frame boundaries, non-decreasing, consecutive differ
-        if any(t not in times for t, _ in written):
-            return {'kind': 'chord-annotation-off-frame-boundary'}
-        ts = [t for t, _ in written]
-        if ts != sorted(ts) or len(set(ts)) != len(ts):
-            return {'kind': 'chord-annotations-not-increasing'}
-        if any(x[1] == y[1] for x, y in zip(written, written[1:])):
-            return {'kind': 'chord-consecutive-symbols-equal'}
-        # chord in force at each frame = inferred chord
-        for t, f in zip(times, figs):
-            cur = None
-            for u, g in written:
-                if u <= t:
-                    cur = g
-            if cur != f:
-                return {'kind': 'chord-in-force-differs-from-path', 'frame_time': t}
-        for t, k in zip(times, a['keys']):
-            cur = None
-            for u, g in keys:
-                if u <= t:
-                    cur = g
-            if cur != k:
-                return {'kind': 'key-in-force-differs-from-path', 'frame_time': t}
+        written, keys, steps = io[1], io[2], io[3]
+        times = _frame_times(a, len(a['figs']))
+        if io[4] != len(a['figs']):
+            return {'kind': 'chord-frame-count', 'frames': io[4], 'expected': len(a['figs'])}
+        v = _check_annotations('chord-annotation', written, times, a['figs']) or \
+            _check_annotations('key-signature', keys, times, a['keys'])
+        if v:
+            return v
+        if a['mode'] == 'fixed':
+            want = [times.index(t) * a['steps_per_chord'] for t, _ in written]
+        elif a['mode'] == 'beats_q':
+            bs = dict((t, s) for t, s in io[5])
+            want = [0 if t == 0 else bs.get(t) for t, _ in written]
+        else:
+            want = steps
+        if steps != want:
+            return {'kind': 'chord-annotation-quantized-step', 'steps': steps, 'expected': want}
         return None
     if op == 'melody_write':
         if io[0] == 'ASSERT':
@@ -535,50 +903,78 @@ def oracle(case, io):
         if io[0] != 'OK':
             return {'kind': 'melody-write-raised', 'exc': io}
         notes = io[1]
-        ns, event_times, evs = _melody_events(a)
-        total = int(round(ns.total_time * 1024))
-        times = [0] + [int(round(t * 1024)) for t in event_times]
+        mel = [x for x in a['notes'] if _melodic(x)]
+        total = a['total']
+        times = [0] + sorted(set([x[1] for x in mel] + [x[2] for x in mel]) - {0, total})
+        if not mel:
+            return None if not notes else {'kind': 'melody-notes-without-pitches'}
         prev_end = 0
         for s, e, p in notes:
-            if not (prev_end <= s < e <= total):
+            if not (isinstance(s, int) and isinstance(e, int) and prev_end <= s < e <= total):
                 return {'kind': 'melody-notes-overlap-or-out-of-range', 'note': [s, e, p]}
             prev_end = e
-            if [1, p] not in [ev for ev, t in zip(evs, times) if t == s]:
+            if [1, p] not in [ev for ev, t in zip(a['events'], times) if t == s]:
                 return {'kind': 'melody-note-not-at-onset-event', 'note': [s, e, p]}
-        if not io[2]:
+        if not io[2] or io[3] in io[4]:
             return {'kind': 'melody-notes-wrong-instrument'}
         return None
     if op == 'chords_e2e':
+        if io[0] != 'OK':
+            return {'kind': 'chords-e2e-raised', 'exc': io}
         r0, r1 = io[1]
+        times = _frame_times(a)
+        from note_seq import chord_inference as ci
+        nc = len(ci._CHORDS)
         for r in (r0, r1):
-            if not (r['attained'] >= r['best'] - 1e-9 * max(1.0, abs(r['best']))):
+            if r['frames'] != len(times):
+                return {'kind': 'chords-e2e-frame-count', 'frames': r['frames'], 'expected': len(times)}
+            if not r['attained'] == r['best']:
                 return {'kind': 'chords-e2e-path-not-maximum-likelihood', 'attained': r['attained'], 'best': r['best']}
-            ts = [t for t, _ in r['anns']]
-            if ts != sorted(ts) or len(set(ts)) != len(ts):
-                return {'kind': 'chords-e2e-annotation-times-not-increasing'}
-            if any(x[1] == y[1] for x, y in zip(r['anns'], r['anns'][1:])):
-                return {'kind': 'chords-e2e-consecutive-symbols-equal'}
-            if len(r['anns']) > r['frames']:
-                return {'kind': 'chords-e2e-more-annotations-than-frames'}
-            if any(t < 0 or t > r['total'] for t in ts):
-                return {'kind': 'chords-e2e-annotation-outside-sequence'}
-        if abs(r0['attained'] - r1['attained']) > 1e-6 * max(1.0, abs(r0['attained'])):
+            v = _check_annotations('chords-e2e-annotation', r['anns'], times, [s % nc for s in r['path']])
+            if not v and a['addkeys']:
+                v = _check_annotations('chords-e2e-key-signature', r['keys'], times, [s // nc for s in r['path']])
+            if v:
+                return v
+        if abs(r0['attained'] - r1['attained']) > 1e-9 * max(1.0, abs(r0['attained'])):
             return {'kind': 'chords-e2e-likelihood-not-transposition-invariant', 'a': r0['attained'], 'b': r1['attained']}
         return None
     if op == 'melody_e2e':
+        if io[0] != 'OK':
+            return {'kind': 'melody-e2e-raised', 'exc': io}
         r0, r1 = io[1]
+        mel = [x for x in a['notes'] if _melodic(x)]
+        onsets = set((x[0], x[1]) for x in mel)
         for r in (r0, r1):
-            if not (r['attained'] >= r['best'] - 1e-9 * max(1.0, abs(r['best']))):
+            if r['nan']:
+                return {'kind': 'melody-e2e-nan-likelihood'}
+            if not r['attained'] == r['best']:
                 return {'kind': 'melody-e2e-path-not-maximum-likelihood', 'attained': r['attained'], 'best': r['best']}
-            prev_end = 0.0
+            prev_end = 0
             for s, e, p in r['notes']:
-                if not (prev_end <= s <= e <= r['total'] + 1e-12):
+                if not (isinstance(s, int) and isinstance(e, int) and prev_end <= s < e <= a['total']):
                     return {'kind': 'melody-e2e-notes-overlap-or-out-of-range', 'note': [s, e, p]}
                 prev_end = e
-                if (p, s) not in r['orig']:
-                    return {'kind': 'melody-e2e-note-not-at-real-onset', 'note': [s, e, p]}
-        if abs(r0['attained'] - r1['attained']) > 1e-6 * max(1.0, abs(r0['attained'])):
-            return {'kind': 'melody-e2e-likelihood-not-transposition-invariant', 'a': r0['attained'], 'b': r1['attained']}
+                if (p, s) not in onsets:
+                    return {'kind': 'melody-e2e-note-not-at-real-onset', 'note': [s, e, p],
+                            'at_sequence_end': any(x[0] == p and x[1] == a['total'] for x in mel)}
+        if r0['frame_ll'] != r1['frame_ll']:
+            return {'kind': 'melody-e2e-frame-likelihoods-not-transposition-invariant'}
+        d = abs(r0['attained'] - r1['attained'])
+        if d > 1e-9 * max(1.0, abs(r0['attained'])):
+            # the transition prior is normalised over the MIDI range 0..127, so its rows depend on absolute pitch;
+            # 'explained' = the shift of the optimum is within frames x (largest entry-wise difference of the two matrices)
+            bound = r0['frames'] * r0.get('delta', 0.0) * (1 + 1e-9) + 1e-9
+            return {'kind': 'melody-e2e-likelihood-not-transposition-invariant',
+                    'cause': 'midi-range-normalisation' if (d <= bound and r0.get('same_inf')) else 'unexplained',
+                    'a': r0['attained'], 'b': r1['attained'], 'bound': bound}
+        return None
+    if op == 'reject':
+        want = EXPECTED_REJECTION[a['which']]
+        got = io[1] if io[0] == 'EXC' else None
+        if got != want:
+            return {'kind': 'rejection-differs-from-documentation', 'which': a['which'], 'got': got, 'expected': want}
+        if not io[2]:
+            return {'kind': 'rejected-sequence-was-modified', 'which': a['which']}
         return None
     return None
 
@@ -586,27 +982,52 @@ def oracle(case, io):
 def nontrivial(case, io):
     op, a = case['op'], case['input']
     if io[0] != 'OK':
-        return False
-    if op in ('melody_vit', 'chord_vit'):
-        return len(a['frames']) >= 2
+        return op == 'reject'
+    if op in ('melody_vit', 'melody_vit_z', 'chord_vit', 'chord_vit_full'):
+        return len(a.get('frames', [0, 0])) >= 2
+    if op == 'note_frames':
+        return len(io[2]) >= 1
     if op in ('chord_write', 'melody_write'):
         return len(io[1]) >= 1
+    if op == 'chords_e2e':
+        return len(io[1][0]['anns']) >= 1
+    if op == 'melody_e2e':
+        return len(io[1][0]['notes']) >= 1
     return True
+
+
+def shrink(case):
+    op, a = case['op'], dict(case['input'])
+    if 'notes' in a and op in ('note_frames', 'melody_e2e', 'melody_write', 'chords_e2e'):
+        for i in range(len(a['notes'])):
+            b = dict(a); b['notes'] = a['notes'][:i] + a['notes'][i + 1:]
+            if b['notes']:
+                yield {'op': op, 'input': b}
+    if op == 'melody_e2e' and a.get('params'):
+        b = dict(a); b['params'] = {}
+        yield {'op': op, 'input': b}
+    if op in ('melody_vit', 'melody_vit_z', 'chord_vit') and len(a['frames']) > 1:
+        b = dict(a); b['frames'] = a['frames'][:-1]
+        yield {'op': op, 'input': b}
 
 
 META = {
     'level_text': ('Theorem (any number of states and frames, any score type with a total order and left-monotone addition, '
-                   'instantiated at integers with -inf): the Viterbi recursion both inference functions implement returns a '
-                   'valid path whose score, accumulated in the code\'s own left-nested order, is >= that of every path of the '
-                   'same length; first-index argmax tie-breaking is part of the model. Theorems for the writer loops: chord '
-                   'annotations are a subsequence of the frame list (at most one per frame, in order, on frame boundaries), '
-                   'consecutive symbols differ, the chord in force at every frame is the inferred one; melody notes are ordered, '
-                   'non-overlapping, non-empty, inside the sequence and start at onset events of their own pitch. Tied to the '
-                   'code by running the real _melody_viterbi/_key_chord_viterbi on integer matrices with ties and -inf and the '
-                   'real infer_* writer loops on chosen paths.'),
+                   'instantiated at integers and at integers with -inf): the Viterbi recursion both inference functions '
+                   'implement returns a valid path whose score, accumulated in the code\'s own left-nested order, is >= that of '
+                   'every path of the same length; first-index argmax tie-breaking is part of the model. Theorems for the '
+                   'writer loops over modelled frame grids (k x seconds_per_chord; sorted distinct interior beats; sorted '
+                   'distinct interior note on/offsets): chord annotations and key signatures are a subsequence of the frame '
+                   'list (at most one per frame, on frame boundaries), times strictly increase, consecutive symbols differ, the '
+                   'chord in force at every frame is the inferred one; melody notes are ordered, non-overlapping, non-empty, '
+                   'inside [0,total_time] and start at onset events of their own pitch; an onset mark of the frame summary '
+                   'always sits in the frame that starts at the start time of a real note of that pitch. Tied to the code by '
+                   'running the real _melody_viterbi/_key_chord_viterbi on integer matrices with ties and -inf, the real '
+                   'sequence_note_frames, and the real infer_* writer loops on chosen paths.'),
     'level_note': ('PARTIAL: the numpy code that builds likelihood and transition matrices (log, dot, norm, tiling) is not '
-                   'modelled; end-to-end optimality, transposition invariance and "melody notes start at real onsets" are checked '
-                   'on the implementation by an independent DP over the captured matrices (a test, not a theorem). Float optimality '
-                   'rests on monotonicity of IEEE addition (hypothesis of the generic theorem; proved for the integer instances only). '
-                   'Chord path equality is compared only when the optimum is unique (the code adds -log 12).'),
+                   'modelled; end-to-end optimality (exact equality of the attained float score with an independent DP over the '
+                   'captured matrices), transposition invariance and "melody notes start at real onsets" are checked on the '
+                   'implementation (a test, not a theorem). Float optimality rests on monotonicity of IEEE addition (hypothesis '
+                   'of the generic theorem; proved for the integer instances only). Chord path equality is compared only when '
+                   'the optimum is unique (the code adds -log 12).'),
 }
